@@ -11,5 +11,5 @@ CONSTANTS
   None = None
 SPECIFICATION Spec
 INVARIANTS TypeOK RingBound Conservation Fifo NoDestroy ForcedKept RemovedOnlyDead ExitPrefix ByFlush
-PROPERTIES Delivered Settled FlushReturns Registers Forgotten
+PROPERTIES CoarseSpec Delivered Settled FlushReturns Registers Forgotten
 CHECK_DEADLOCK FALSE
